@@ -14,14 +14,21 @@ Theorem c02_status_fold_spec : forall ls,
   (status_fold exit_GOOD ls = exit_GOOD <-> ~ In LFail ls /\ ~ In LWarn ls).
 Proof. exact status_fold_spec. Qed.
 
-(* the status of a standard audit of ANY peer is the worst level among the items of its report *)
+(* the status of a standard audit of ANY peer is the worst level among the levelled findings of its report: the general section's
+   (a protocol-1.x banner is a failure, a banner with non-printable characters a warning) and the notes of the algorithm items *)
 Theorem c02_report_status_is_worst : forall (p : peer) (d0 : db),
   let r := report_of p d0 in
-  (rp_status r = exit_FAILURE <-> exists it, In it (rp_items r) /\ In LFail (map fst (snd it))) /\
-  (rp_status r = exit_WARNING <-> (~ exists it, In it (rp_items r) /\ In LFail (map fst (snd it)))
-                                   /\ exists it, In it (rp_items r) /\ In LWarn (map fst (snd it))) /\
-  (rp_status r = exit_GOOD <-> forall it, In it (rp_items r) -> ~ In LFail (map fst (snd it)) /\ ~ In LWarn (map fst (snd it))).
+  (rp_status r = exit_FAILURE <-> In LFail (report_levels p r)) /\
+  (rp_status r = exit_WARNING <-> ~ In LFail (report_levels p r) /\ In LWarn (report_levels p r)) /\
+  (rp_status r = exit_GOOD <-> ~ In LFail (report_levels p r) /\ ~ In LWarn (report_levels p r)).
 Proof. exact report_status_is_worst. Qed.
+Theorem c02_report_levels : forall p r l,
+  In l (report_levels p r) <-> In l (pr_general p) \/ exists it, In it (rp_items r) /\ In l (map fst (snd it)).
+Proof. exact report_levels_in. Qed.
+Theorem c02_failure_iff : forall (p : peer) (d0 : db),
+  let r := report_of p d0 in
+  rp_status r = exit_FAILURE <-> In LFail (pr_general p) \/ exists it, In it (rp_items r) /\ In LFail (map fst (snd it)).
+Proof. exact report_status_failure_iff. Qed.
 
 Theorem c02_policy_status : forall passed,
   (policy_exit passed = exit_GOOD <-> passed = true) /\ (policy_exit passed = exit_FAILURE <-> passed = false).
